@@ -317,6 +317,7 @@ protected:
 
 public:
     explicit CollectDependenciesVisitor(std::set<symbol_t>&);
+    int32_t visitIterationStatement(IterationStatement* stat) override;
 };
 
 class CollectDynamicExpressions : public ExpressionVisitor
